@@ -13,7 +13,12 @@ Open Scope list_scope.
 
 (* The unguarded statement
      forall pre5 ops, c05_ok ops (model_obs pre5 empty_coll ops) = true
-   is FALSE (Refuted/C05.v).  Inside the guard it holds: after every operation of the model's
+   is FALSE (Refuted/C05.v).  The guard c05_reasons (Spec/HistGuards.v) excludes: 1 a
+   successful insert_one whose explicit _id the datetime normalisation changes (inserted_id is
+   the normalised _id, the predicate wants the _id as given); 2 an _id that is not a
+   well-formed value; 4 F-ID-RETYPE; 8 F-ID-BOOL-NUM; 16 a TTL index.  (After the repair of the
+   library the former class "store key not stable under patch" of bit 1 and the whole bit 32
+   are no longer assumed: see C05_keys_normalised below.)  Inside the guard it holds: after every operation of the model's
    own trace the store keys are pairwise BSON-different and every document carries the _id it
    is stored under; insert_one generates a fresh _id / rejects a present one with
    DuplicateKeyError leaving the store untouched; update, replace and find_one_and_update/
@@ -42,6 +47,16 @@ Theorem C05_state_invariant : forall (pre5 : bool) (ops : list op),
 Proof. exact state_invariant. Qed.
 Print Assumptions C05_state_invariant.
 
+(* Every store key is a value the datetime normalisation leaves alone and lies inside the
+   model's store keys (no array, no aware datetime, through sub-documents): the fact that
+   replaces the former guard bits "store key not stable under patch" (1) and 32. *)
+Theorem C05_keys_normalised : forall (pre5 : bool) (ops : list op),
+  forallb ttl_free ops = true ->
+  forall k d, In (k, d) (docs (final pre5 empty_coll ops)) ->
+    patch k = k /\ id_modelled k = true.
+Proof. exact keys_normalised. Qed.
+Print Assumptions C05_keys_normalised.
+
 (* The hypothesis is satisfiable on a history exercising every clause of the predicate. *)
 Definition c05_demo : list op :=
   [ OInsertOne (VDoc [("_id", VInt 1); ("x", VInt 0)]);
@@ -49,6 +64,9 @@ Definition c05_demo : list op :=
     OInsertOne (VDoc [("_id", VDbl 8); ("x", VInt 9)]);                  (* 1.0: duplicate *)
     OInsertOne (VDoc [("_id", VDoc [("a", VInt 1); ("b", VStr "s")])]);  (* sub-document _id *)
     OInsertOne (VDoc [("_id", VArr [VInt 1])]);                          (* rejected *)
+    OInsertOne (VDoc [("_id", VDate 5000 None); ("x", VInt 20)]);        (* datetime _id *)
+    OInsertOne (VDoc [("_id", VDate 5001 None); ("x", VInt 21)]);        (* same millisecond: duplicate *)
+    OInsertOne (VDoc [("_id", VDate 5000 (Some 0)); ("x", VInt 22)]);    (* same instant, aware: duplicate *)
     OCreateIndex [("x", VInt 1)] true true None None None;  (* unique, sparse *)
     OInsertOne (VDoc [("_id", VInt 7); ("x", VInt 5)]);                  (* unique index: rolled back *)
     OInsertMany [VDoc [("_id", VStr "a")]; VDoc [("_id", VStr "a")]; VDoc [("y", VInt 1)]] false;
@@ -76,5 +94,5 @@ Example C05_history_demo :
   c05_reasons c05_demo (model_obs false empty_coll c05_demo) = 0 /\
   modelled false empty_coll c05_demo = true /\
   c05_ok c05_demo (model_obs false empty_coll c05_demo) = true /\
-  List.length (List.filter (fun ob => is_ok (fst (fst ob))) (model_obs false empty_coll c05_demo)) = 22%nat.
+  List.length (List.filter (fun ob => is_ok (fst (fst ob))) (model_obs false empty_coll c05_demo)) = 23%nat.
 Proof. vm_compute. repeat split; reflexivity. Qed.
